@@ -2254,6 +2254,38 @@ def wide(prop):
         out.append(Program(pid(), "enum", "E", vs, ["Debug"], focus={"Debug"}, note="wide: empty tuple / empty named variants",
                            debug={"name": "default", "named_field": None}))
 
+    if prop == "C03":
+        # explicit ranks at isize::MIN next to UNRANKED fields (whose rank is isize::MIN + position): the explicit one
+        # sorts before an unranked field declared earlier
+        MIN = ISIZE_MIN
+        for md in ("both", "po"):
+            car = "Ord" if md == "both" else "PartialOrd"
+            for pi, pat in enumerate(([3, None, MIN], ["i", None, None, MIN], [MIN, None, -5], [7, None, MIN + 1 + 1], [None, None, MIN + 1])):
+                if pat == [None, None, MIN + 1]:
+                    continue        # collides with the positional rank of field 1: rejected
+                for shape in ("named", "tuple"):
+                    if (pi + (shape == "named")) % 2 and md == "po":
+                        continue
+                    fs = []
+                    for i, rk in enumerate(pat):
+                        sem = {"ignore": rk == "i", "method": None, "rank": rk if isinstance(rk, int) else None}
+                        sp = spell_field(car, sem, [0, 2, 1, 3][(pi + i) % 4] + (4 if i % 2 else 0))
+                        fs.append(Field(LONG[i] if shape == "named" else None, "T0" if md == "both" else "u8", attrs=[sp] if sp else [], ord=sem))
+                    out.append(ord_program(pid(), "struct", "S", [Variant(None, shape, fs)], md, ["T0"] if md == "both" else [], 0,
+                                           "wide: explicit rank isize::MIN among unranked fields %s %s mode=%s" % (pat, shape, md)))
+    if prop == "C09":
+        # a tuple variant with more fields than a byte can index, designated field beyond position 255
+        fsw = [Field(None, "u8", attrs=(["Deref"] if i == 257 else []), deref={"mark": i == 257}) for i in range(259)]
+        vs = [Variant("V0", "tuple", [Field(None, "u8", deref={}), Field(None, "u8", attrs=["Deref"], deref={"mark": True}), Field(None, "u8", deref={})]),
+              Variant("V1", "tuple", fsw)]
+        P = Program(pid(), "enum", "E", vs, ["Deref"], focus={"Deref"}, note="wide: 259-field tuple variant, Deref field at position 257")
+        P.tags["no_verus"] = "259 bindings per arm: decided by Kani on the concrete layout"
+        out.append(P)
+        fsw = [Field(None, "u8", attrs=(["Deref", "DerefMut"] if i == 256 else []), deref={"mark": i == 256}, deref_mut={"mark": i == 256}) for i in range(258)]
+        P = Program(pid(), "struct", "S", [Variant(None, "tuple", fsw)], ["Deref", "DerefMut"], focus={"Deref", "DerefMut"}, note="wide: 258-field tuple struct, Deref/DerefMut field at position 256")
+        P.tags["no_verus"] = "258 fields: decided by Kani on the concrete layout"
+        out.append(P)
+
     return out
 
 
